@@ -23,6 +23,29 @@ CHECKS = {
         note="Trusted: identifiability oracles in mc/graphs.py (two independent ones, cross-checked exhaustively for n<=4).",
         design="4/C02",
     ),
+    "C03": dict(
+        text="Every (X,Y,Z) split on every labelled ADMG up to 3 nodes and four-node name-ordered graphs (quick: <=4 edges; thorough: "
+        "all 4096 plus labelled <=4 edges) is run through both IDC entry points; estimands are evaluated exactly on generic witness "
+        "SCMs for every assignment and compared with P(y,z|do x)/P(z|do x); any outcome other than estimand/refusal is a violation.",
+        note="Trusted: mc/scm.py and mc/semantics.py; bounded-exhaustive, witnesses stand in for all SCMs.",
+        design="4/C03",
+    ),
+    "C05": dict(
+        text="Every (graph, X, Y, list of up to two source domains (Z_i, W_i)) within the bound is run through identify_target_outcomes; "
+        "the estimand is evaluated on a multi-domain witness family (source models share every mechanism with the target except at the "
+        "nodes marked by the selection diagram) and compared with the target P*(y|do x) for every assignment; with no domains the "
+        "None-ness must coincide with ID-identifiability.",
+        note="Trusted: witness family construction (mechanisms keyed by named arguments), evaluator; transport marks are y0's own "
+        "united with the published construction.",
+        design="4/C05",
+    ),
+    "C17": dict(
+        text="Every (graph, linear extension, district T, bidirected-connected C inside T) within the bound is passed to "
+        "identify_district_variables with Q[T] from compute_c_factor and as the Lemma-1 product; results are evaluated exactly on "
+        "witness SCMs and compared with P(c|do(v minus c)); c-factor routines are also exercised from every ancestral set.",
+        note="Trusted: mc/scm.py truncated factorisation and the evaluator; failure is additionally compared with the IDENTIFY fix-point.",
+        design="4/C17",
+    ),
     "C04": dict(
         text="Every ordered pair and conditioning set on every labelled ADMG up to 4 nodes (thorough: plus five-node graphs up "
         "to 6 edges), under all node-insertion permutations / reversed edge lists and several hash seeds, is passed to the real "
